@@ -18,6 +18,20 @@ fn rgba(s: &str) -> [u8; 4] {
     [v[0], v[1], v[2], v[3]]
 }
 
+/// q* options set the public fields of the QRCode value other than its modules (a renderer must not depend on them)
+fn set_qr_fields(qr: &mut QRCode, opts: &[&str]) {
+    for o in opts {
+        let (k, v) = o.split_once('=').unwrap();
+        match k {
+            "qecl" => qr.ecl = Some(LEVELS[v.parse::<usize>().unwrap()]),
+            "qmask" => qr.mask = Some(MASKS[v.parse::<usize>().unwrap()]),
+            "qmode" => qr.mode = Some(MODES[v.parse::<usize>().unwrap()]),
+            "qver" => qr.version = Some(VERSIONS[v.parse::<usize>().unwrap()]),
+            _ => {}
+        }
+    }
+}
+
 /// key=value options shared by the svg and raster streams
 fn configure<B: Builder>(b: &mut B, opts: &[&str]) {
     for o in opts {
@@ -48,7 +62,13 @@ fn configure<B: Builder>(b: &mut B, opts: &[&str]) {
                 let (x, y) = v.split_once(',').unwrap();
                 b.image_position(x.parse().unwrap(), y.parse().unwrap());
             }
-            "fitw" | "fith" => {}
+            "ibgv" => { let c = rgba(v); b.image_background_color(c.to_vec()); }
+            "shapecv" => {
+                let (s, c) = v.split_once(':').unwrap();
+                let c = rgba(c);
+                b.shape_color(SHAPES[s.parse::<usize>().unwrap()], &c[..]);
+            }
+            "fitw" | "fith" | "qecl" | "qmask" | "qmode" | "qver" => {}
             _ => panic!("unknown option {}", k),
         }
     }
@@ -77,7 +97,8 @@ pub fn run_case(a: &[&str]) -> String {
         "svg" => {
             // svg <size> <hexmatrix> opts...
             let n: usize = a[1].parse().unwrap();
-            let qr = matrix_from(n, &unhex(a[2]));
+            let mut qr = matrix_from(n, &unhex(a[2]));
+            set_qr_fields(&mut qr, &a[3..]);
             let mut b = SvgBuilder::default();
             configure(&mut b, &a[3..]);
             let before: Vec<u8> = qr.data.iter().map(|m| m.0).collect();
@@ -89,7 +110,8 @@ pub fn run_case(a: &[&str]) -> String {
         "raster" => {
             // raster <size> <hexmatrix> opts...  -> width height centre-mismatches full-cell-mismatches png-ok
             let n: usize = a[1].parse().unwrap();
-            let qr = matrix_from(n, &unhex(a[2]));
+            let mut qr = matrix_from(n, &unhex(a[2]));
+            set_qr_fields(&mut qr, &a[3..]);
             let mut b = ImageBuilder::default();
             configure(&mut b, &a[3..]);
             let mut margin = 4usize;
@@ -248,6 +270,10 @@ pub fn run_case(a: &[&str]) -> String {
                 "trailslash" => format!("{}/out_ts_{}.{}/", dir, std::process::id(), a[1]),
                 "relmissing" => format!("no_such_dir_fqh/out.{}", a[1]),
                 // a bare file name (Path::parent() is ""), written in the work directory: must succeed
+                // whitespace is part of a file name
+                "trailspace" => format!("{}/out_ts_{}_{}.{} ", dir, a.get(4).unwrap_or(&"large"), std::process::id(), a[1]),
+                "leadspace" => format!("{}/ out_ls_{}_{}.{}", dir, a.get(4).unwrap_or(&"large"), std::process::id(), a[1]),
+                "trailnl" => format!("{}/out_nl_{}_{}.{}\n", dir, a.get(4).unwrap_or(&"large"), std::process::id(), a[1]),
                 "bare" => { std::env::set_current_dir(dir).unwrap(); format!("out_bare_{}_{}.{}", a.get(4).unwrap_or(&"large"), std::process::id(), a[1]) }
                 _ => panic!("fault class"),
             };
@@ -283,7 +309,7 @@ pub fn run_case(a: &[&str]) -> String {
             };
             match res {
                 Ok(()) => {
-                    let same = if a[2] == "ok" || a[2] == "overwrite" || a[2] == "samelen" || a[2] == "direct" || a[2] == "bare" { std::fs::read(&path).map(|c| c == expect).unwrap_or(false) } else { false };
+                    let same = if ["ok", "overwrite", "samelen", "direct", "bare", "trailspace", "leadspace", "trailnl"].contains(&a[2]) { std::fs::read(&path).map(|c| c == expect).unwrap_or(false) } else { false };
                     format!("RET_OK same={}", same as u8)
                 }
                 Err(_) => "RET_ERR".to_string(),
